@@ -175,7 +175,7 @@ Qed.
 (* ---- parameter lists ------------------------------------------------------------------------------------------- *)
 Lemma resolve_params e fs cur n ps :
   params_only ps = true ->
-  resolve e fs cur false n ps = (map (TBind cur false) (headdecls ps), n).
+  resolve_m e fs cur false n ps = (map (TBind cur false) (headdecls ps), n).
 Proof.
   induction ps; cbn; intros H; try discriminate; [reflexivity|].
   destruct d; try discriminate. rewrite (IHps H). reflexivity.
